@@ -1,6 +1,7 @@
 import JominiModel.Proofs.BinCut
 import JominiModel.Proofs.TextTapeCut
 import JominiModel.Proofs.BinTapeCut
+import JominiModel.Proofs.TextDeCut
 /-
 C19 — Truncated documents never yield fabricated data.
 
